@@ -109,6 +109,10 @@ func genUniverse(rng *hx.Rng, tok string, values int, emit func(string, string))
 					d2 = append(d2, b[off+len(pat):]...)
 				}
 				emit(fmt.Sprintf("x %s %d %s", tok, (off+k)%2, hx.Hex(d2)), "universe:offset-sweep")
+				if len(pat) == 4 && off+len(pat) < len(b) {
+					// the input ENDS behind the hostile value: if it is a count, no element can be decoded from what is left
+					emit(fmt.Sprintf("x %s %d %s", tok, (off+k+1)%2, hx.Hex(d2[:off+len(pat)])), "universe:offset-sweep-cut")
+				}
 			}
 		}
 	}
